@@ -228,7 +228,7 @@ prop("C08", ["c08_planner", "c08_n0", "c08_n1", "c08_n2", "c08_n2_fullrank", "c0
 prop("C09", ["proto_glue", "plain_get_seq", "plain_touch_seq", "raw_insert_or_update_basic", "raw_insert_or_touch_basic", "raw_touch_basic", "raw_ops_sanity_twin"],
      ["plain_set_seq", "plain_put_seq", "sharded_get_01", "raw_apply_update_evict_a_moveback_b"],
      outside=["clocks that go backwards or differ between hosts", "granularities other than {1 ns, 1 s, 2 s}"], assumptions=COMMON_ASSUME)
-prop("C10", ["c10_trigger", "plain_ops_sanity_twin"], ["plain_set_seq", "plain_put_seq"],
+prop("C10", ["proto_glue", "c10_trigger", "plain_ops_sanity_twin"], ["plain_set_seq", "plain_put_seq"],
      outside=["concurrent writers (excluded by the property)", "several caches sharing one thread's countdown"],
      assumptions=COMMON_ASSUME + ["after maintenance at most `capacity` files remain (C07)"])
 prop("C11", ["proto_glue", "plain_get_seq", "plain_touch_seq", "raw_insert_or_update_basic", "raw_insert_or_touch_basic", "raw_ops_sanity_twin"],
